@@ -15,3 +15,16 @@ Fixpoint report_from {A} (chk : A -> Z) (l : list A) (i : Z) : list (Z * Z) :=
               if r =? 0 then report_from chk t (i + 1) else (i, r) :: report_from chk t (i + 1)
   end.
 Definition report {A} (chk : A -> Z) (l : list A) : list (Z * Z) := report_from chk l 0.
+
+(* observables shared by several evaluators *)
+Inductive obytes := OB (b : list N) | OE | OP.   (* bytes returned / error returned / panic *)
+Definition obytes_eqb (a b : obytes) : bool :=
+  match a, b with
+  | OB x, OB y => (fix eq (p q : list N) := match p, q with
+                                             | [], [] => true
+                                             | u :: p', v :: q' => N.eqb u v && eq p' q'
+                                             | _, _ => false end) x y
+  | OE, OE => true
+  | OP, OP => true
+  | _, _ => false
+  end.
